@@ -25,6 +25,12 @@ copy with and without --force.  Compared between A/B/C: records, cache, workspac
 untracked files, and the exit class (done / refused / panic).  Direct oracle on B and C: without --force a file xvc
 does not know about is neither overwritten nor recorded.  Tie: model `copyDest` / `copyRefused` (destination path and
 guard decision on the recorded paths and workspace paths of the case) vs what the binary did in B.
+
+Form D (every copy / move case, one in FORM_D_EVERY of the others): `-C <absolute path of cwd>` run with a PROCESS
+working directory outside the repository (form C: process cwd = root), so that anything resolved against the process
+cwd instead of xvc's current directory differs; destination states `untracked` (the destination directory / file exists
+under the -C directory, not where the process stands: seeded/C03-3) and `mirror-root` / populated $ELSEWHERE (the
+other way round).  A run that hits the per-process timeout makes the case run once more (`run_case_retry`).
 """
 import concurrent.futures, hashlib, json, os, shutil, stat
 from common import Check, run_lines, shrink
@@ -224,6 +230,7 @@ def prepare(chk, xvc, name, family, variant, storage_dir, L=None):
     sb = Sandbox(chk.scratch, name, xvc)
     sb.git('init', '-q', '-b', 'main')
     sb.git('commit', '-q', '--allow-empty', '-m', 'root')
+    shutil.rmtree(sb.path('.git/hooks'), ignore_errors=True)   # inert *.sample files; every case copies the sandbox 4-5 times
     rc, out, err = sb.x('init')
     if rc != 0:
         chk.fatal('xvc init failed', out + err)
@@ -401,7 +408,7 @@ def gen_case(rng, chk, family=None, cwd=None, shape=None, layout='base', variant
             dst = rng.choice(['copied.' + ext, 'new/dest.' + ext, (os.path.dirname(src) + '/' if '/' in src else '') + 'renamed.' + ext])
         case['targets'] = [src, dst]
         case['shape'] = 'file->dir' if kind == 'dir' else 'file->file'
-        case['dest_state'] = dest_state or rng.choice(['absent'] * 3 + ['untracked'] * 3 + ['tracked'] + ['mirror'] * 2)
+        case['dest_state'] = dest_state or rng.choice(['absent'] * 3 + ['untracked'] * 4 + ['tracked'] + ['mirror'] * 2 + ['mirror-root'] * 2)
         if family == 'copy' and (rng.random() < 0.3 if force is None else force):
             case['opts'] = ['--force']
     else:
@@ -449,12 +456,27 @@ def copy_dest_path(case):
 def apply_dest_state(sb, case):
     """second preparation step of copy / move: what is at the destination path before the command"""
     st = case.get('dest_state', 'absent')
-    if case['family'] not in ('copy', 'move') or st == 'absent':
+    if case['family'] not in ('copy', 'move') or case['shape'] not in ('file->file', 'file->dir'):
         return
     P = copy_dest_path(case)
+    src, dst = case['targets']
+    # the destination ARGUMENT read against a directory that is not xvc's current directory: the file it would name there
+    arg_rel = os.path.normpath(dst.rstrip('/') + '/' + join(case['cwd'], src)) if dst.endswith('/') else os.path.normpath(dst)
+    if st != 'untracked':
+        # the PROCESS working directory of form D holds what the destination argument names (directory and file), the
+        # repository does not (except for `tracked`); for `untracked` it is the other way round (seeded/C03-3)
+        e = os.path.join(sb.base, 'elsewhere', arg_rel)
+        os.makedirs(os.path.dirname(e), exist_ok=True)
+        open(e, 'w').write(f'elsewhere {arg_rel}\n')
+    if st == 'absent':
+        return
     if st == 'mirror':
         # a file xvc does not know about at <cwd>/<root-relative destination> -- NOT the destination
         sb.write(join(case['cwd'], P), f'precious mirror {P}\n')
+        return
+    if st == 'mirror-root':
+        # ... at <root>/<destination argument>: what the argument names from the process cwd of form C -- NOT the destination
+        sb.write(arg_rel, f'precious mirror-root {arg_rel}\n')
         return
     sb.write(P, f'precious {P}\n')                           # a file xvc does not know about AT the destination
     if st == 'tracked':
@@ -475,6 +497,19 @@ def root_targets(case):
     return [join(cwd, t) for t in case['targets']]
 
 
+ELSEWHERE = '$ELSEWHERE (a directory outside the repository)'
+FORM_D_EVERY = 3        # form D for copy / move always, for the other families in one case out of FORM_D_EVERY
+
+
+def wants_form_d(case):
+    if case.get('root_targets') or case.get('storage_path'):
+        return False                                          # known-finding replays run exactly as before
+    if case['family'] in ('copy', 'move'):
+        return True
+    h = int(hashlib.sha1(json.dumps(case, sort_keys=True).encode()).hexdigest(), 16)
+    return h % FORM_D_EVERY == 0
+
+
 def run_case(chk, xvc, name, case):
     base = os.path.join(chk.scratch, name)
     storage = os.path.join(base, 'storage')
@@ -492,7 +527,13 @@ def run_case(chk, xvc, name, case):
         'A': (None, [], root_targets(case)),
         'B': (cwd, [], case['targets']),
         'C': (None, ['-C', cwd], case['targets']),
+        # -C with a PROCESS working directory that is neither the root nor the -C directory: a scratch directory outside
+        # the repository, `-C <absolute path of cwd>` (anything resolved against the process cwd instead of xvc's
+        # current directory shows up here; form C has process cwd = root)
+        'D': (ELSEWHERE, ['-C', '$ROOT/' + cwd], case['targets']),
     }
+    if not wants_form_d(case):
+        del forms['D']
     if case.get('forms'):
         forms = {k: v for k, v in forms.items() if k in case['forms']}
     try:
@@ -504,7 +545,12 @@ def run_case(chk, xvc, name, case):
             os.makedirs(sb.path(cwd), exist_ok=True)         # the directory the user stands in exists in every copy
             wd = sb.path(cd) if cd else sb.root
             argv = pre_args + cmd_argv(case, targets)
-            rc, out, err = sb.x(*argv, cwd=wd)
+            real_argv = argv
+            if cd == ELSEWHERE:
+                wd = os.path.join(sb.base, 'elsewhere')
+                os.makedirs(wd, exist_ok=True)
+                real_argv = [a.replace('$ROOT', sb.root) if a.startswith('$ROOT/') else a for a in argv]
+            rc, out, err = sb.x(*real_argv, cwd=wd)
             ab = abstract(sb, storage if os.path.isdir(storage0) else None)
             ab['list'] = parse_list(out, cwd if form != 'A' else '') if case['family'] == 'list' else None
             runs[form] = {'argv': ['xvc'] + argv, 'cwd': cd or '.', 'rc': rc, 'stdout': out[-1500:], 'stderr': err[-800:], 'abs': ab,
@@ -515,7 +561,7 @@ def run_case(chk, xvc, name, case):
         shutil.rmtree(base, ignore_errors=True)
     msgs = []
     panicked = [k for k, v in runs.items() if v['rc'] == 101]
-    for other in ('B', 'C'):
+    for other in ('B', 'C', 'D'):
         if other not in runs or 'A' not in runs:
             continue
         if 'A' in panicked and other in panicked:
@@ -532,7 +578,7 @@ def run_case(chk, xvc, name, case):
             msgs.append(f"list rows differ ({other}): only at root {[r for r in la if r not in lb][:4]}, only from {runs[other]['cwd']} {[r for r in lb if r not in la][:4]}")
     if case['family'] in ('copy', 'move'):
         # exit class: "refused at the root, done from the subdirectory" is a difference even before looking at effects
-        for other in ('B', 'C'):
+        for other in ('B', 'C', 'D'):
             if other in runs and 'A' in runs and not ('A' in panicked and other in panicked) \
                     and exit_class(runs['A']['rc']) != exit_class(runs[other]['rc']):
                 msgs.append(f"exit class differs: `{' '.join(runs['A']['argv'])}` at the root: {exit_class(runs['A']['rc'])}, "
@@ -542,26 +588,26 @@ def run_case(chk, xvc, name, case):
         if '--force' not in case['opts']:
             unknown = {p: w for p, w in pre['workspace'].items() if w['kind'] == 'file' and 'sha' in w and os.path.basename(p) not in ('.gitignore', '.xvcignore')
                        and pre['records'].get(p, {}).get('type') != 'File'}
-            for other in ('B', 'C'):
+            for other in ('A', 'B', 'C', 'D'):
                 if other not in runs or runs[other]['rc'] in (101, 124):
                     continue
                 post = runs[other]['abs']
                 for p, w in sorted(unknown.items()):
                     if post['workspace'].get(p) != w:
-                        msgs.append(f"`{' '.join(runs[other]['argv'])}` (no --force) in {cwd} overwrote the untracked file {p}: {w} -> {post['workspace'].get(p)}")
+                        msgs.append(f"`{' '.join(runs[other]['argv'])}` (no --force) in {runs[other]['cwd']} overwrote the untracked file {p}: {w} -> {post['workspace'].get(p)}")
                     if post['records'].get(p, {}).get('type') == 'File':
-                        msgs.append(f"`{' '.join(runs[other]['argv'])}` (no --force) in {cwd} recorded the pre-existing untracked file {p}")
+                        msgs.append(f"`{' '.join(runs[other]['argv'])}` (no --force) in {runs[other]['cwd']} recorded the pre-existing untracked file {p}")
     # second sentence of C18, stated directly on the observations (independent of run A and of the model): without
     # targets the command acts on nothing but files under the current directory -- component-wise (`below`)
     if case['shape'] == 'none':
-        for other in ('B', 'C'):
+        for other in ('B', 'C', 'D'):
             if other not in runs or runs[other]['rc'] in (101, 124):
                 continue
             post = runs[other]['abs']
             acted = {os.path.normpath(p) for p in touched(pre, post, case['family'])}
             outside = sorted(p for p in acted if not below(cwd, p) and not is_dirpath(p, pre, post, dirs=L['dirs']))
             if outside:
-                msgs.append(f"`{' '.join(runs[other]['argv'])}` without targets in {runs[other]['cwd'] if other == 'B' else cwd} acted on paths that are "
+                msgs.append(f"`{' '.join(runs[other]['argv'])}` without targets in {cwd} acted on paths that are "
                             f"not under {cwd}/: {outside[:6]}" + (f' (+{len(outside) - 6} more)' if len(outside) > 6 else ''))
     return {'case': case, 'pre': pre, 'runs': runs, 'oracle': msgs, 'all_panicked': len(panicked) == len(runs)}
 
@@ -786,6 +832,11 @@ CORPUS = [
     _cm('mini', 'copy', 'data', 'a.txt', 'b.txt', 'untracked'), _cm('mini', 'copy', 'data', 'a.txt', 'backup/', 'untracked'),
     _cm('mini', 'copy', 'data', 'a.txt', 'c.txt', 'mirror'), _cm('mini', 'move', 'data', 'a.txt', 'b.txt', 'untracked'),
     _cm('mini', 'move', 'data', 'a.txt', 'backup/', 'mirror'),
+    # seeded/C03-3 (minimised): move into an EXISTING directory that holds an unknown file at the destination path; the
+    # -C forms run with a process working directory (root / outside the repository) in which `backup/` does not exist.
+    # Mirror image: `backup/` (and the file) exist where the process stands, not in the directory -C names.
+    _cm('mini', 'move', 'data', 'a.txt', 'backup/', 'untracked'), _cm('mini', 'move', 'data', 'a.txt', 'backup/', 'mirror-root'),
+    _cm('mini', 'copy', 'data', 'a.txt', 'backup/', 'mirror-root'),
     # seeded/C18-1 (minimised): no targets in `data`, the sibling `data2` extends its name and its file is changed
     # (carry-in) / missing (recheck, bring) / not in the storage (send); then the full adversarial layout at the root,
     # nested and with -C (every case runs cd and -C)
@@ -912,7 +963,7 @@ def run(chk: Check):
         'file and directory names are literal: letters, digits, `.`, `-`, `_` (glob metacharacters in names: known gap of the unchanged binary, not generated)',
         'messages are not compared (only effects and the rows of `list`); a differing number of [ERROR] lines between the directories is counted in the distribution (error-line-count-differs-between-directories:<family>)',
     ]
-    n = 90 if quick else 1000
+    n = 70 if quick else 1000
     cases = [dict(c) for c in CORPUS]
     for c in cases:
         count_case(chk, c)
@@ -933,7 +984,7 @@ def run(chk: Check):
         for cwd in sib_cwds:
             cases.append(gen_case(chk.rng, chk, fam, cwd, 'none', layout='prefix', variant=0))
     for fam in FAMILIES:
-        for j in range(2):
+        for j in range(1 if quick and fam in ('copy', 'move') else 2):     # copy / move get their own sweep below
             shape = None if fam in ('copy', 'move') else [x for x in SHAPES if x != 'none'][k % (len(SHAPES) - 1)]
             cwd = PL['cwds'][k % len(PL['cwds'])]
             k += 1
@@ -945,16 +996,17 @@ def run(chk: Check):
         for kind in ('file', 'dir'):
             for fam, state, force in [('copy', 'absent', False), ('copy', 'untracked', False), ('copy', 'untracked', True),
                                       ('copy', 'tracked', False), ('copy', 'tracked', True), ('copy', 'mirror', False),
+                                      ('copy', 'mirror-root', False),
                                       ('move', 'absent', False), ('move', 'untracked', False), ('move', 'tracked', False),
-                                      ('move', 'mirror', False)]:
+                                      ('move', 'mirror', False), ('move', 'mirror-root', False)]:
                 k += 1
                 cases.append(gen_case(chk.rng, chk, fam, cw[k % len(cw)], layout=layout, dest_kind=kind, dest_state=state, force=force))
     cases += [gen_case(chk.rng, chk, layout='prefix' if i % 5 in (1, 3) else 'base') for i in range(n)]
     chk.extra['rule'] = (f'corpus ({len(CORPUS)} fixed cases: seeded/C18-2 minimised (copy onto an untracked file from a subdirectory), seeded/C18-1 minimised (no targets next to a sibling whose name extends the name of the cwd), F3, directory-slash rule with an absent directory, K9b, track without targets / with -C) + {len(KNOWN_REPLAYS)} known-finding replays + '
                          f'every command family (track, carry-in, recheck, list, send, bring, remove, untrack, copy, move) x every depth 1-3 with rotating target shapes + '
                          f'adversarial-name layout (data / data2 / data-old / data.bak / datafile.txt / da, data/raw / data/rawer / data/raw.txt, proj/train / proj/train_aug / proj/train.csv / proj/tr): '
-                         f'copy / move destinations on both layouts: file and directory destination x (absent, untracked workspace file, tracked, untracked file at <cwd>/<cwd>/<dest> only), copy with and without --force (40 cases; exit class compared; direct guard oracle: without --force an untracked file is neither overwritten nor recorded; model copyDest/copyRefused vs binary); '
-                         f'no targets for every family that accepts it ({", ".join(NOTARGET_FAMILIES)}) x every cwd with such a sibling ({", ".join(sib_cwds)}) with every file actionable, and every family x 2 cwds with explicit targets + {n} random cases, 2 in 5 on the adversarial layout '
+                         f'copy / move destinations on both layouts: file and directory destination x (absent, untracked workspace file, tracked, untracked file at <cwd>/<cwd>/<dest> only), copy with and without --force (48 cases incl. the destination argument existing only where the PROCESS stands; exit class compared; direct guard oracle: without --force an untracked file is neither overwritten nor recorded; model copyDest/copyRefused vs binary); '
+                         f'no targets for every family that accepts it ({", ".join(NOTARGET_FAMILIES)}) x every cwd with such a sibling ({", ".join(sib_cwds)}) with every file actionable, and every family x 2 cwds (copy, move: 1) with explicit targets + {n} random cases, 2 in 5 on the adversarial layout; every copy / move case and one in 3 of the others also runs form D: process cwd outside the repository, -C <absolute path> '
                          '(family, cwd of depth 1-3, shape in file / two files / dir/ / dir / glob / file+glob / no targets, option variants --recheck-method, --force, preparation variants incl. tracked '
                          'with copy/symlink/hardlink, edited files, deleted files, a whole directory deleted). Every case: one prepared repository, three byte-identical copies, the command from the root with '
                          'root-relative targets (A), from the subdirectory (B) and with -C (C); abstractions of A/B and A/C compared; model selection vs paths touched in B. '
